@@ -129,6 +129,7 @@ theorem lock_changes_only_by (st : State) (op : Op) :
       repeat (first | (split at h) | cases h)
       all_goals (first | rfl | skip)
   | interactive on => rfl
+  | macroLookup name => simp only [step]; split <;> rfl
   | singleton key c =>
     simp only [step]
     cases h : st.singletonUse key c with
